@@ -3819,6 +3819,18 @@ impl Zeroconf {
                     self.add_timer(t);
                 }
 
+                // Forget the records only this service owns (its SRV and TXT, under the name
+                // it registered with and the name it currently has on each interface): a probe
+                // still in flight stops, and a later registration of the same name is probed again.
+                for dns_registry in self.dns_registry_map.values_mut() {
+                    let current = dns_registry.resolve_name(info.get_fullname()).to_string();
+                    for name in [info.get_fullname(), current.as_str()] {
+                        dns_registry.probing.remove(name);
+                        dns_registry.active.remove(name);
+                        dns_registry.name_changes.remove(name);
+                    }
+                }
+
                 self.increase_counter(Counter::Unregister, 1);
                 UnregisterStatus::OK
             }
